@@ -6,7 +6,7 @@ From RV Require Import Base.PyNum Timing.Snapper Timing.Snap Timing.TimingMap Ti
   Timing.Domain Timing.Domain2 Formats.SMText Formats.SM Formats.SMSpec Formats.SMWriteDom
   Proofs.SnapperProofs Proofs.TimingProofs Proofs.RederiveProofs Proofs.TimingProofs2
   Proofs.SMProofs Proofs.SMWriteProofs Proofs.SMWriteWholeRun Proofs.SMWriteWholeText Proofs.SMWriteWholeTime Proofs.SMWriteWholeGrid
-  Proofs.SMWriteWholeChart.
+  Proofs.SMWriteWholeChart Proofs.SMCanon.
 Import ListNotations.
 Open Scope Q_scope.
 
@@ -344,11 +344,11 @@ Qed.
 Lemma mt_pairs (items : list (Q * Q)) r t :
   match_toks 0 (concat (intersperse [TLit [44%Z; 10%Z]] (map (fun bq : Q * Q => [TRnd2 (fst bq); L "="; TNum (snd bq)]) items)) ++ r) t = true ->
   exists bp pairs s', t = join [44%Z; 10%Z] (map ptext bp) ++ s' /\ match_toks 0 r s' = true /\ Forall2 pair_ok bp pairs
-    /\ Forall2 (fun (p bq : Q * Q) => is_hundredth (fst p) = true /\ Qabs (fst p - fst bq) <= 1 # 200 /\ snd p == snd bq) pairs items.
+    /\ Forall2 (fun (p bq : Q * Q) => is_millionth (fst p) = true /\ Qabs (fst p - fst bq) <= 1 # 2000000 /\ snd p == snd bq) pairs items.
 Proof.
   intro H. apply mt_sep in H. destruct H as [texts [s' [F [-> Hr]]]].
   assert (G: exists bp pairs, texts = map ptext bp /\ Forall2 pair_ok bp pairs
-             /\ Forall2 (fun (p bq : Q * Q) => is_hundredth (fst p) = true /\ Qabs (fst p - fst bq) <= 1 # 200 /\ snd p == snd bq) pairs items).
+             /\ Forall2 (fun (p bq : Q * Q) => is_millionth (fst p) = true /\ Qabs (fst p - fst bq) <= 1 # 2000000 /\ snd p == snd bq) pairs items).
   { clear Hr. apply forall2_map_l in F. revert texts F. induction items as [|bq items IH]; intros texts F.
     - inversion F; subst. exists [], []. repeat split; constructor.
     - inversion F as [|? t0 ? texts' H0 F']; subst. destruct (IH texts' F') as [bp [pairs [-> [A B]]]].
@@ -407,18 +407,33 @@ Section FileThm.
   Hypothesis Hcf : cf = ref_conf (k_tbl cf) (k_chart_keys cf).
   Hypothesis Hok : table_ok (1 # 96) tbl = true.
 
-  Lemma chart_dom_parts c0 c init l : chart_domb cf c0 c init l = true ->
+  (* what is established for one chart: its note data is written and denotes notes with property P *)
+  Definition chart_res (P : smchart -> list dnote -> Prop) (c : smchart) (time : Q -> Q) (keys : Z) : Prop :=
+    exists body, chart_body cf current c = Some body
+      /\ (body = [] \/ (head_nows body /\ head_nows (rev body))) /\ forallb bodych body = true
+      /\ exists op notes ns,
+           denote_measures (match body with [] => [] | _ => split_on 44 body end) keys 0 time (repeat None (Z.to_nat keys)) [] [] = Some (op, notes, ns)
+           /\ forallb (fun o : option (kind * Q) => match o with None => true | Some _ => false end) op = true
+           /\ P c (rev notes).
+  (* the per-chart domain and the per-chart conclusion are parameters: instantiated for the exact and for the cap regime *)
+  Variable chartdom : smchart -> smchart -> Q -> list bcs -> bool.
+  Variable Pc : Q -> list bcs -> smchart -> list dnote -> Prop.
+  Hypothesis Hchart_common : forall c0 c init l, chartdom c0 c init l = true -> chart_common_domb cf c0 c init l = true.
+  Hypothesis Hchart : forall rows init l, tempo_script_of cf rows = Some (init, l) -> tempo_domb cf rows init l = true ->
+    forall script beat0, Forall2 bcs_eqv script l -> beat0 == init ->
+    forall c0 c keys, c_bpms c0 = rows -> chartdom c0 c init l = true -> ref_keys (c_type c) = Some keys ->
+      chart_res (Pc init l) c (beat_time beat0 script) keys.
+
+  Lemma chart_dom_parts c0 c init l : chart_common_domb cf c0 c init l = true ->
     exists keys, ref_keys (c_type c) = Some keys /\ get_keys cf (c_type c) = Some keys
       /\ tame_str (c_type c) = true /\ tame_str (c_desc c) = true /\ tame_str (c_diff c) = true /\ c_radar c <> []
       /\ c_bpms c = c_bpms c0
       /\ forallb (fun e : Q * Z * Z => (0 <=? snd (fst e))%Z && (snd (fst e) <? keys)%Z) (chart_events cf c) = true
       /\ forallb (fun h : Q * Z * Q => Qlt_bool 0 (snd h)) (c_holds c ++ c_rolls c) = true
       /\ longs_disjoint (c_holds c ++ c_rolls c) = true
-      /\ forallb (fun e : Q * Z * Z => time_okb cf init l (fst (fst e))) (chart_events cf c) = true
-      /\ distinct_bc (map (fun e : Q * Z * Z => (spec_beat init l (fst (fst e)), snd (fst e))) (chart_events cf c)) = true
-      /\ exact_measures cf (spec_placed cf init l c) = true.
+      /\ forallb (fun e : Q * Z * Z => time_okb cf init l (fst (fst e))) (chart_events cf c) = true.
   Proof.
-    unfold chart_domb, chart_common_domb. intro H. apply andb_true_iff in H. destruct H as [H He]. apply andb_true_iff in H. destruct H as [H Hd].
+    unfold chart_common_domb. intro H.
     destruct (ref_keys (c_type c)) as [keys|]; [|discriminate]. destruct (get_keys cf (c_type c)) as [keys'|]; [|discriminate].
     repeat (apply andb_true_iff in H; let H' := fresh "G" in destruct H as [H H']).
     apply Z.eqb_eq in H. subst keys'. exists keys. repeat split; try assumption.
@@ -426,12 +441,12 @@ Section FileThm.
     - symmetry. apply (forallb2_eq _ row_same_eq). assumption.
   Qed.
 
-  Lemma set_dom_parts s : c03_domb_gen cf s = true ->
+  Lemma set_dom_parts s : c03_dom_with cf chartdom s = true ->
     exists c0 cs init l off, s_maps s = c0 :: cs /\ tempo_script_of cf (c_bpms c0) = Some (init, l)
       /\ forallb tame_str (s_txt s) = true /\ length (s_txt s) = 16%nat /\ tempo_domb cf (c_bpms c0) init l = true
-      /\ s_offset s = Some off /\ off == init /\ forallb (fun c => chart_domb cf c0 c init l) (s_maps s) = true.
+      /\ s_offset s = Some off /\ off == init /\ forallb (fun c => chartdom c0 c init l) (s_maps s) = true.
   Proof.
-    unfold c03_domb_gen. destruct (s_maps s) as [|c0 cs] eqn:Em; [discriminate|].
+    unfold c03_dom_with. destruct (s_maps s) as [|c0 cs] eqn:Em; [discriminate|].
     destruct (tempo_script_of cf (c_bpms c0)) as [[init l]|] eqn:Et; [|discriminate]. intro H.
     apply andb_true_iff in H. destruct H as [H Hc]. unfold set_common_domb in H.
     repeat (apply andb_true_iff in H; let H' := fresh "G" in destruct H as [H H']).
@@ -504,23 +519,23 @@ Section FileThm.
     Hypothesis Hb0 : beat0 == init.
     Variables (c0 c : smchart).
     Hypothesis Hrows0 : c_bpms c0 = rows.
-    Hypothesis Hcd : chart_domb cf c0 c init l = true.
+    Hypothesis Hcd : chartdom c0 c init l = true.
 
     Lemma chart_body_exists : exists body, chart_body cf current c = Some body.
     Proof.
-      destruct (chart_dom_parts c0 c init l Hcd) as [keys [K1 [K2 [T1 [T2 [T3 [Rn [Eb [P1 [P2 [P3 [P4 [P5 P6]]]]]]]]]]]]].
-      destruct (chart_thm cf Hcf Hok rows init l Hscript Htd script beat0 Hsc Hb0 c keys (eq_trans Eb Hrows0) K1 P1 P2 P3 P4 P5 P6 K2)
-        as [body [B _]]. exists body. exact B.
+      destruct (chart_dom_parts c0 c init l (Hchart_common _ _ _ _ Hcd)) as [keys [K1 _]].
+      destruct (Hchart rows init l Hscript Htd script beat0 Hsc Hb0 c0 c keys Hrows0 Hcd K1) as [body [B _]]. exists body. exact B.
     Qed.
 
     Lemma chart_item_denotes body rn rd : chart_body cf current c = Some body ->
       Forall2 rad_ok rn rd -> Forall2 (fun x r => x == r) rd (c_radar c) ->
       let cd := mk_cd c body rn in
-      cd_clean cd /\ cd_ok cd /\ exists dc, denote_chart (cvalue cd) (beat_time beat0 script) = Some dc /\ chart_denotes dc c.
+      cd_clean cd /\ cd_ok cd /\ exists dc, denote_chart (cvalue cd) (beat_time beat0 script) = Some dc
+                                         /\ header_match 0 dc c = true /\ Pc init l c (d_notes dc).
     Proof.
       intros Hbody R1 R2 cd.
-      destruct (chart_dom_parts c0 c init l Hcd) as [keys [K1 [K2 [T1 [T2 [T3 [Rn [Eb [P1 [P2 [P3 [P4 [P5 P6]]]]]]]]]]]]].
-      destruct (chart_thm cf Hcf Hok rows init l Hscript Htd script beat0 Hsc Hb0 c keys (eq_trans Eb Hrows0) K1 P1 P2 P3 P4 P5 P6 K2)
+      destruct (chart_dom_parts c0 c init l (Hchart_common _ _ _ _ Hcd)) as [keys [K1 [K2 [T1 [T2 [T3 [Rn [Eb [P1 [P2 [P3 P4]]]]]]]]]]].
+      destruct (Hchart rows init l Hscript Htd script beat0 Hsc Hb0 c0 c keys Hrows0 Hcd K1)
         as [body' [B [Bends [Bch [op [notes [ns [D [Ho Hperm]]]]]]]]].
       assert (body' = body) by congruence. subst body'.
       destruct (tame_parts _ T1) as [A1 [A2 [A3 [A4 A5]]]]. destruct (tame_parts _ T2) as [B1 [B2 [B3 [B4 B5]]]].
@@ -559,10 +574,11 @@ Section FileThm.
           - apply ends_okb_spec. pose proof (show_int_nows (c_meter c)) as W. split; [apply nows_head; exact W|apply nows_head; rewrite forallb_rev; exact W].
           - apply ends_okb_spec. split; assumption.
           - apply (body_no body 58%Z Bch). reflexivity. }
-        eexists. split.
+        eexists. split; [|split].
         + apply (denote_chart_cvalue cd keys (c_meter c) rd _ op notes ns Hf K1 (parse_int_show_int _) (radar_parse rn rd Hrn R1) D Ho).
-        + unfold chart_denotes, header_match. cbn [d_type d_desc d_diff d_meter d_radar d_notes]. split; [|exact Hperm].
+        + unfold header_match. cbn [d_type d_desc d_diff d_meter d_radar].
           unfold cd, mk_cd. cbn [cd_ty cd_desc cd_diff]. rewrite !text_eqb_refl, Z.eqb_refl, (list_close_refl0 _ _ R2). reflexivity.
+        + cbn [d_notes]. exact Hperm.
     Qed.
   End OneChart.
 
@@ -598,7 +614,7 @@ Section FileThm.
       /\ (numeral n_ss = true /\ parse_decimal n_ss = Some x_ss /\ x_ss == Qred (ss / 1000))
       /\ (numeral n_sl = true /\ parse_decimal n_sl = Some x_sl /\ x_sl == Qred (sl / 1000))
       /\ Forall2 pair_ok bp pairs
-      /\ Forall2 (fun (p bq : Q * Q) => is_hundredth (fst p) = true /\ Qabs (fst p - fst bq) <= 1 # 200 /\ snd p == snd bq) pairs items.
+      /\ Forall2 (fun (p bq : Q * Q) => is_millionth (fst p) = true /\ Qabs (fst p - fst bq) <= 1 # 2000000 /\ snd p == snd bq) pairs items.
   Proof.
     unfold mlines. intro F.
     inversion F as [|l1 t1 ? r1 H1 F1]; subst. inversion F1 as [|l2 t2 ? r2 H2 F2]; subst. inversion F2 as [|l3 t3 ? r3 H3 F3]; subst. inversion F3 as [|l4 t4 ? r4 H4 F4]; subst. inversion F4 as [|l5 t5 ? r5 H5 F5]; subst. inversion F5 as [|l6 t6 ? r6 H6 F6]; subst. inversion F6 as [|l7 t7 ? r7 H7 F7]; subst. inversion F7 as [|l8 t8 ? r8 H8 F8]; subst. inversion F8 as [|l9 t9 ? r9 H9 F9]; subst. inversion F9 as [|l10 t10 ? r10 H10 F10]; subst. inversion F10 as [|l11 t11 ? r11 H11 F11]; subst. inversion F11 as [|l12 t12 ? r12 H12 F12]; subst. inversion F12 as [|l13 t13 ? r13 H13 F13]; subst. inversion F13 as [|l14 t14 ? r14 H14 F14]; subst. inversion F14 as [|l15 t15 ? r15 H15 F15]; subst. inversion F15 as [|l16 t16 ? r16 H16 F16]; subst. inversion F16 as [|l17 t17 ? r17 H17 F17]; subst. inversion F17 as [|l18 t18 ? r18 H18 F18]; subst. inversion F18 as [|l19 t19 ? r19 H19 F19]; subst. inversion F19 as [|l20 t20 ? r20 H20 F20]; subst. inversion F20 as [|l21 t21 ? r21 H21 F21]; subst. inversion F21 as [|l22 t22 ? r22 H22 F22]; subst.
@@ -727,10 +743,26 @@ Section FileThm.
   Qed.
 
   (* ================================================================ MAIN *)
-  Theorem sm_write_denotes_gen s : c03_domb_gen cf s = true ->
+  (* the concrete shape of every exact rendering: 22 header lines "#TAG:value;" and 9 lines per chart, joined by newlines;
+     the only free parts are the numerals (each parses to the written value) *)
+  Definition text_shape (s : smset) (txt : text) : Prop :=
+    exists n_off x_off bp pairs n_ss x_ss n_sl x_sl cds,
+      txt = join nl (map hline (hlist (s_txt s) n_off (join [44%Z; 10%Z] (map ptext bp)) n_ss n_sl (s_sel s)) ++ concat (map ctexts cds))
+      /\ (numeral n_off = true /\ parse_decimal n_off = Some x_off
+          /\ match s_offset s with Some off => x_off == Qred (- (off / 1000)) | None => False end)
+      /\ (numeral n_ss = true /\ parse_decimal n_ss = Some x_ss /\ x_ss == Qred (s_sstart s / 1000))
+      /\ (numeral n_sl = true /\ parse_decimal n_sl = Some x_sl /\ x_sl == Qred (s_slen s / 1000))
+      /\ bp <> [] /\ Forall2 pair_ok bp pairs
+      /\ Forall2 (fun c cd => exists body rn rd, chart_body cf current c = Some body /\ cd = mk_cd c body rn
+                                /\ Forall2 rad_ok rn rd /\ Forall2 (fun x r => x == r) rd (c_radar c)) (s_maps s) cds.
+
+  Theorem sm_write_denotes_with s : c03_dom_with cf chartdom s = true ->
     exists toks, sm_write cf current s = Some toks /\
       forall txt, match_toks 0 toks txt = true ->
-        exists d, sm_denote txt = Some d /\ header_roundtrip 0 s d = true /\ Forall2 chart_denotes (d_charts d) (s_maps s).
+        text_shape s txt /\
+        exists d, sm_denote txt = Some d /\ header_roundtrip 0 s d = true
+          /\ exists init l, match s_maps s with c0 :: _ => tempo_script_of cf (c_bpms c0) = Some (init, l) | [] => False end
+              /\ Forall2 (fun dc c => header_match 0 dc c = true /\ Pc init l c (d_notes dc)) (d_charts d) (s_maps s).
   Proof.
     intro Hdom.
     destruct (set_dom_parts s Hdom) as [c0 [cs [init [l [off [Em [Et [Htx [Hlen [Htd [Eo [Eoff Hch]]]]]]]]]]]].
@@ -764,7 +796,7 @@ Section FileThm.
     (* the script the text denotes *)
     set (script := tempo_script pairs). set (beat0 := Qred (- (x_off * 1000))).
     assert (HP: Forall2 (fun (p : Q * Q) (r : Q * Q * Q) =>
-                 is_hundredth (fst p) = true /\ Qabs (fst p - spec_beat init l (fst (fst r))) <= 1 # 200 /\ snd p == snd (fst r)) pairs rows).
+                 is_millionth (fst p) = true /\ Qabs (fst p - spec_beat init l (fst (fst r))) <= 1 # 2000000 /\ snd p == snd (fst r)) pairs rows).
     { unfold items in P2. apply forall2_map_r in P2. exact P2. }
     destruct (written_script cf Hok rows init l Et Htd pairs HP) as [Hsc Hpos]. fold script in Hsc.
     assert (Hb0: beat0 == init).
@@ -778,7 +810,7 @@ Section FileThm.
               Forall2 (fun c cd => In c (s_maps s) /\ exists rn rd, cd = mk_cd c (bodyof c) rn /\ Forall2 rad_ok rn rd /\ Forall2 (fun x r => x == r) rd (c_radar c)) maps cds' ->
               Forall cd_clean cds' /\ Forall cd_ok cds'
               /\ exists dcs, map_opt (fun it : text * text => denote_chart (snd it) (beat_time beat0 script)) (map (fun cd => (tx "#NOTES", cvalue cd)) cds') = Some dcs
-                             /\ Forall2 chart_denotes dcs maps).
+                             /\ Forall2 (fun dc c => header_match 0 dc c = true /\ Pc init l c (d_notes dc)) dcs maps).
     { intros maps cds' G'. induction G' as [|c cd maps cds' [Hc [rn [rd [-> [R1 R2]]]]] _ IH].
       - split; [constructor|]. split; [constructor|]. exists []. split; [reflexivity|constructor].
       - destruct IH as [I1 [I2 [dcs [I3 I4]]]]. rewrite forallb_forall in Hch.
@@ -817,7 +849,13 @@ Section FileThm.
     rewrite (numeral_strip _ A1) in K1. rewrite Sb in K2. rewrite (numeral_strip _ S1) in K4. rewrite (numeral_strip _ L1) in K5.
     pose proof (sm_denote_items txt itemsL n_off bpmv x_off pairs dcs Hitems) as SD. cbv zeta in SD. rewrite Efields, Enotes in SD.
     specialize (SD K1 K2 A2 (bpms_parse bp pairs Hbp P1) K3 (script_first_ok cf rows init l Et Htd script Hsc) Hpos CD1).
-    eexists. split; [exact SD|]. split; [|exact CD2].
+    split.
+    { exists n_off, x_off, bp, pairs, n_ss, x_ss, n_sl, x_sl, cds. split; [exact Etext|]. rewrite Eo.
+      split; [repeat split; assumption|]. split; [repeat split; assumption|]. split; [repeat split; assumption|].
+      split; [exact Hbp|]. split; [exact P1|].
+      refine (forall2_impl _ _ _ _ _ (forall2_with_in _ _ _ G)). intros c cd [Hc [rn [rd [E [R1 R2]]]]].
+      exists (bodyof c), rn, rd. split; [apply Hbody; exact Hc|]. split; [exact E|]. split; assumption. }
+    eexists. split; [exact SD|]. split; [|exists init, l; split; [rewrite Em; exact Et|exact CD2]].
     (* header round trip *)
     unfold header_roundtrip. cbn [d_items d_beat0].
     assert (R1: forallb2 (fun tag v => match lookup_last tag (hfields hl) None with Some x => text_eqb x v | None => false end) text_field_tags (s_txt s) = true).
@@ -832,9 +870,171 @@ Section FileThm.
   Qed.
 End FileThm.
 
+(* ================================================================ from permutations to the runner's oracle *)
+Lemma note4_lt_eqv x y x' y' : note_eqv x y -> note_eqv x' y' -> note4_lt x x' = note4_lt y y'.
+Proof.
+  destruct x as [[cx tx_] lx], y as [[cy ty] ly], x' as [[cx' tx'] lx'], y' as [[cy' ty'] ly'].
+  unfold note_eqv. cbn [fst snd]. intros [-> [E1 _]] [-> [E2 _]]. unfold note4_lt. f_equal. f_equal.
+  destruct (Qlt_bool ty ty') eqn:H.
+  - apply Qlt_bool_iff. apply Qlt_bool_iff in H. rewrite E1, E2. exact H.
+  - destruct (Qlt_bool tx_ tx') eqn:H2; [|reflexivity]. apply Qlt_bool_iff in H2. rewrite E1, E2 in H2. apply Qlt_bool_iff in H2. congruence.
+Qed.
+Lemma canon_eqv a b : Forall2 note_eqv a b -> Forall2 note_eqv (canon a) (canon b).
+Proof. intro F. unfold canon. apply sort_by_rel; [exact F|]. intros x y x' y' _ _ H H'. apply note4_lt_eqv; assumption. Qed.
+Lemma notes_close_eqv a b : Forall2 note_eqv a b -> notes_close (fun _ => 0) a b = true.
+Proof.
+  induction 1 as [|x y a b [E1 [E2 E3]] _ IH]; [reflexivity|]. destruct x as [[cx tx_] lx], y as [[cy ty] ly]. cbn [fst snd] in *. cbn [notes_close].
+  rewrite IH, andb_true_r. subst cy. rewrite Z.eqb_refl, (q_close0 _ _ E2). cbn [andb]. change (2 * 0) with 0. apply (q_close0 _ _ E3).
+Qed.
+Lemma keys_differ_forall2 a b : Forall2 note_eqv a b -> ForallOrdPairs keys_differ b -> ForallOrdPairs keys_differ a.
+Proof.
+  induction 1 as [|x y a b Hxy F IH]; intro H; [constructor|]. inversion H as [|? ? Hy Hb]; subst. constructor; [|apply IH; exact Hb].
+  apply Forall_forall. intros x' Hx'. destruct (forall2_in_l _ _ _ _ F Hx') as [y' [Hy' E']]. rewrite Forall_forall in Hy. specialize (Hy y' Hy').
+  intros [C1 C2]. apply Hy. destruct Hxy as [A1 [A2 _]]. destruct E' as [B1 [B2 _]]. split; [congruence|rewrite <- A2, <- B2; exact C2].
+Qed.
+Lemma keys_differ_sym x y : keys_differ x y -> keys_differ y x.
+Proof. unfold keys_differ. intros H [A B]. apply H. split; [symmetry; exact A|symmetry; exact B]. Qed.
+Lemma FOP_in_or {A} (R : A -> A -> Prop) (Rs : forall a b, R a b -> R b a) l x y : ForallOrdPairs R l -> In x l -> In y l -> x = y \/ R x y.
+Proof.
+  induction 1 as [|a l Ha Hl IH]; intros Hx Hy; [destruct Hx|]. rewrite Forall_forall in Ha.
+  destruct Hx as [<-|Hx], Hy as [<-|Hy]; [left; reflexivity|right; apply Ha; exact Hy|right; apply Rs; apply Ha; exact Hx|apply IH; assumption].
+Qed.
+Lemma keys_differ_cmp x y : keys_differ x y -> note4_lt x y = true \/ note4_lt y x = true.
+Proof.
+  destruct x as [[cx tx_] lx], y as [[cy ty] ly]. unfold keys_differ, note4_lt. cbn [fst snd]. intro H.
+  destruct (Z.lt_trichotomy cx cy) as [L|[E|L]].
+  - left. apply orb_true_iff. left. apply Z.ltb_lt. exact L.
+  - subst cy. rewrite Z.eqb_refl, Z.ltb_irrefl. cbn [orb andb].
+    destruct (Qlt_le_dec tx_ ty) as [L|G]; [left; apply Qlt_bool_iff; exact L|].
+    destruct (Qlt_le_dec ty tx_) as [L|G']; [right; apply Qlt_bool_iff; exact L|].
+    exfalso. apply H. split; [reflexivity|apply Qle_antisym; assumption].
+  - right. apply orb_true_iff. left. apply Z.ltb_lt. exact L.
+Qed.
+Lemma kind_close dn b : perm_eqv dn b -> ForallOrdPairs keys_differ b -> notes_close (fun _ => 0) (canon dn) (canon b) = true.
+Proof.
+  intros [a' [Hp Hf]] Hk.
+  assert (Ka: ForallOrdPairs keys_differ a') by (apply (keys_differ_forall2 a' b Hf Hk)).
+  assert (Kd: ForallOrdPairs keys_differ dn) by (apply (FOP_perm _ keys_differ_sym a' dn (Permutation_sym Hp) Ka)).
+  rewrite (canon_perm_eq dn a' Hp).
+  - apply notes_close_eqv. apply canon_eqv. exact Hf.
+  - intros x y Hx Hy. destruct (FOP_in_or _ keys_differ_sym dn x y Kd Hx Hy) as [->|D]; [left; reflexivity|right; apply keys_differ_cmp; exact D].
+Qed.
+Lemma objs_match_exact dc c : (forall k, perm_eqv (dnotes_of k (d_notes dc)) (chart_list c k)) ->
+  (forall k, ForallOrdPairs keys_differ (chart_list c k)) -> objs_match (fun _ => 0) dc c = true.
+Proof.
+  intros Hp Hk. unfold objs_match, chart_objs. cbn [forallb fst snd].
+  pose proof (kind_close _ _ (Hp KHit) (Hk KHit)) as E1. pose proof (kind_close _ _ (Hp KHold) (Hk KHold)) as E2.
+  pose proof (kind_close _ _ (Hp KRoll) (Hk KRoll)) as E3. pose proof (kind_close _ _ (Hp KMine) (Hk KMine)) as E4.
+  pose proof (kind_close _ _ (Hp KLift) (Hk KLift)) as E5. pose proof (kind_close _ _ (Hp KFake) (Hk KFake)) as E6.
+  pose proof (kind_close _ _ (Hp KKey) (Hk KKey)) as E7. cbn [chart_list] in E1, E2, E3, E4, E5, E6, E7.
+  rewrite E1, E2, E3, E4, E5, E6, E7. reflexivity.
+Qed.
+Lemma forallb2_of_forall2 {A B} (f : A -> B -> bool) a b : Forall2 (fun x y => f x y = true) a b -> forallb2 f a b = true.
+Proof. induction 1 as [|x y a b H _ IH]; [reflexivity|]. cbn [forallb2]. rewrite H, IH. reflexivity. Qed.
+
+(* ================================================================ the two regimes *)
+Section Regimes.
+  Variable cf : smconf.
+  Hypothesis Hcf : cf = ref_conf (k_tbl cf) (k_chart_keys cf).
+  Hypothesis Hok : table_ok (1 # 96) (k_tbl cf) = true.
+
+  Lemma chart_domb_parts c0 c init l : chart_domb cf c0 c init l = true ->
+    chart_common_domb cf c0 c init l = true
+    /\ distinct_bc (map (fun e : Q * Z * Z => (spec_beat init l (fst (fst e)), snd (fst e))) (chart_events cf c)) = true
+    /\ exact_measures cf (spec_placed cf init l c) = true.
+  Proof. unfold chart_domb. intro H. apply andb_true_iff in H. destruct H as [H H2]. apply andb_true_iff in H. destruct H as [H0 H1]. auto. Qed.
+  Lemma chart_cap_domb_parts c0 c init l : chart_cap_domb cf c0 c init l = true ->
+    chart_common_domb cf c0 c init l = true
+    /\ distinct_cells (map (cell_of_placed cf (spec_placed cf init l c)) (spec_placed cf init l c)) = true.
+  Proof. unfold chart_cap_domb. intro H. apply andb_true_iff in H. exact H. Qed.
+
+  (* exact regime *)
+  Definition exactP (c : smchart) (notes : list dnote) : Prop :=
+    (forall k, perm_eqv (dnotes_of k notes) (chart_list c k)) /\ (forall k, ForallOrdPairs keys_differ (chart_list c k)).
+  Lemma sm_write_exact_strong s : c03_domb_gen cf s = true ->
+    exists toks, sm_write cf current s = Some toks /\
+      forall txt, match_toks 0 toks txt = true ->
+        exists d, sm_denote txt = Some d /\ header_roundtrip 0 s d = true
+          /\ Forall2 (fun dc c => header_match 0 dc c = true /\ exactP c (d_notes dc)) (d_charts d) (s_maps s).
+  Proof.
+    intro Hdom.
+    destruct (sm_write_denotes_with cf Hok (chart_domb cf) (fun _ _ c notes => exactP c notes)
+                (fun c0 c init l H => proj1 (chart_domb_parts c0 c init l H))) with (s := s) as [toks [W H]]; [|exact Hdom|].
+    - intros rows init l Hs Ht script beat0 Hsc Hb0 c0 c keys Hr Hcd Hk.
+      destruct (chart_domb_parts c0 c init l Hcd) as [Hcom [Hdist Hex]].
+      destruct (chart_dom_parts cf c0 c init l Hcom) as [keys' [K1 [K2 [_ [_ [_ [_ [Eb [P1 [P2 [P3 P4]]]]]]]]]]].
+      assert (keys' = keys) by congruence. subst keys'.
+      destruct (chart_thm cf Hcf Hok rows init l Hs Ht script beat0 Hsc Hb0 c keys (eq_trans Eb Hr) K1 K2 P1 P2 P3 P4 Hdist Hex)
+        as [body [B1 [B2 [B3 [op [notes [ns [D [Ho Hp]]]]]]]]].
+      exists body. split; [exact B1|]. split; [exact B2|]. split; [exact B3|]. exists op, notes, ns. split; [exact D|]. split; [exact Ho|].
+      split; [exact Hp|]. intro k.
+      apply (chart_keys_distinct cf Hcf init l c Hdist).
+    - exists toks. split; [exact W|]. intros txt Hm. destruct (H txt Hm) as [_ [d [D1 [D2 [init [l [_ D3]]]]]]].
+      exists d. split; [exact D1|]. split; [exact D2|exact D3].
+  Qed.
+  Theorem sm_write_denotes_gen s : c03_domb_gen cf s = true ->
+    exists toks, sm_write cf current s = Some toks /\
+      forall txt, match_toks 0 toks txt = true ->
+        exists d, sm_denote txt = Some d /\ header_roundtrip 0 s d = true /\ Forall2 chart_denotes (d_charts d) (s_maps s).
+  Proof.
+    intro Hdom. destruct (sm_write_exact_strong s Hdom) as [toks [W H]]. exists toks. split; [exact W|]. intros txt Hm.
+    destruct (H txt Hm) as [d [D1 [D2 D3]]]. exists d. split; [exact D1|]. split; [exact D2|].
+    apply (forall2_impl _ _ _ _ (fun dc c G => conj (proj1 G) (proj1 (proj2 G))) D3).
+  Qed.
+  (* ... and in the form of the runner's oracle: write_spec with tolerance 0 in the exact regime *)
+  Theorem sm_write_spec_gen s : c03_domb_gen cf s = true ->
+    exists toks, sm_write cf current s = Some toks /\
+      forall txt, match_toks 0 toks txt = true -> exists d, sm_denote txt = Some d /\ write_spec 0 true s d = true.
+  Proof.
+    intro Hdom. destruct (sm_write_exact_strong s Hdom) as [toks [W H]]. exists toks. split; [exact W|]. intros txt Hm.
+    destruct (H txt Hm) as [d [D1 [D2 D3]]]. exists d. split; [exact D1|]. unfold write_spec. rewrite D2. cbn [andb].
+    apply forallb2_of_forall2. refine (forall2_impl _ _ _ _ _ D3). intros dc c [G1 [G2 G3]].
+    rewrite G1, (objs_match_exact dc c G2 G3). reflexivity.
+  Qed.
+
+  (* the concrete shape of the written text (for compositions with the reader) *)
+  Theorem sm_write_shape_gen s : c03_domb_gen cf s = true ->
+    exists toks, sm_write cf current s = Some toks /\ forall txt, match_toks 0 toks txt = true -> text_shape cf s txt.
+  Proof.
+    intro Hdom.
+    destruct (sm_write_denotes_with cf Hok (chart_domb cf) (fun _ _ c notes => exactP c notes)
+                (fun c0 c init l H => proj1 (chart_domb_parts c0 c init l H))) with (s := s) as [toks [W H]]; [|exact Hdom|].
+    - intros rows init l Hs Ht script beat0 Hsc Hb0 c0 c keys Hr Hcd Hk.
+      destruct (chart_domb_parts c0 c init l Hcd) as [Hcom [Hdist Hex]].
+      destruct (chart_dom_parts cf c0 c init l Hcom) as [keys' [K1 [K2 [_ [_ [_ [_ [Eb [P1 [P2 [P3 P4]]]]]]]]]]].
+      assert (keys' = keys) by congruence. subst keys'.
+      destruct (chart_thm cf Hcf Hok rows init l Hs Ht script beat0 Hsc Hb0 c keys (eq_trans Eb Hr) K1 K2 P1 P2 P3 P4 Hdist Hex)
+        as [body [B1 [B2 [B3 [op [notes [ns [D [Ho Hp]]]]]]]]].
+      exists body. split; [exact B1|]. split; [exact B2|]. split; [exact B3|]. exists op, notes, ns. split; [exact D|]. split; [exact Ho|].
+      split; [exact Hp|]. intro k. apply (chart_keys_distinct cf Hcf init l c Hdist).
+    - exists toks. split; [exact W|]. intros txt Hm. apply (H txt Hm).
+  Qed.
+
+  (* cap regime: every object is read at the time of the row it was written in, less than a 384th of a measure early *)
+  Theorem sm_write_cap_gen s : c03_cap_domb_gen cf s = true ->
+    exists toks, sm_write cf current s = Some toks /\
+      forall txt, match_toks 0 toks txt = true ->
+        exists d, sm_denote txt = Some d /\ header_roundtrip 0 s d = true
+          /\ exists init l, match s_maps s with c0 :: _ => tempo_script_of cf (c_bpms c0) = Some (init, l) | [] => False end
+              /\ Forall2 (chart_cap_denotes init l) (d_charts d) (s_maps s).
+  Proof.
+    intro Hdom.
+    destruct (sm_write_denotes_with cf Hok (chart_cap_domb cf)
+                (fun init l c notes => forall k, exists a', Permutation (dnotes_of k notes) a' /\ Forall2 (cap_note_rel init l) a' (chart_list c k))
+                (fun c0 c init l H => proj1 (chart_cap_domb_parts c0 c init l H))) with (s := s) as [toks [W H]]; [|exact Hdom|].
+    - intros rows init l Hs Ht script beat0 Hsc Hb0 c0 c keys Hr Hcd Hk.
+      destruct (chart_cap_domb_parts c0 c init l Hcd) as [Hcom Hcells].
+      destruct (chart_dom_parts cf c0 c init l Hcom) as [keys' [K1 [K2 [_ [_ [_ [_ [Eb [P1 [P2 [P3 P4]]]]]]]]]]].
+      assert (keys' = keys) by congruence. subst keys'.
+      exact (chart_thm_cap cf Hcf Hok rows init l Hs Ht script beat0 Hsc Hb0 c keys (eq_trans Eb Hr) K1 K2 P1 P2 P3 P4 Hcells).
+    - exists toks. split; [exact W|]. intros txt Hm. apply (H txt Hm).
+  Qed.
+End Regimes.
+
 (* ================================================================ the live configuration *)
-(* the exact domain of C03, on the constants and the snapper table regenerated from the live classes *)
+(* the exact and the cap domain of C03, on the constants and the snapper table regenerated from the live classes *)
 Definition c03_domb (s : smset) : bool := c03_domb_gen live_conf s.
+Definition c03_cap_domb (s : smset) : bool := c03_cap_domb_gen live_conf s.
 Lemma live_conf_ref : live_conf = ref_conf (k_tbl live_conf) (k_chart_keys live_conf).
 Proof. vm_compute. reflexivity. Qed.
 Lemma live_table_ok : table_ok (1 # 96) (k_tbl live_conf) = true.
@@ -848,3 +1048,25 @@ Theorem sm_write_denotes (s : smset) : c03_domb s = true ->
     forall txt, match_toks 0 toks txt = true ->
       exists d, sm_denote txt = Some d /\ header_roundtrip 0 s d = true /\ Forall2 chart_denotes (d_charts d) (s_maps s).
 Proof. exact (sm_write_denotes_gen live_conf live_conf_ref live_table_ok s). Qed.
+
+(* The same for mapsets in which some measure needs more than 384 rows (no two objects in one written cell):
+   nothing invented, nothing dropped, columns kept, and each object is read at the time of the row
+   floor(position * rows) of its measure, whose beat wb satisfies  wb <= beat < wb + 4/384. *)
+Theorem sm_write_cap_bound (s : smset) : c03_cap_domb s = true ->
+  exists toks, sm_write live_conf current s = Some toks /\
+    forall txt, match_toks 0 toks txt = true ->
+      exists d, sm_denote txt = Some d /\ header_roundtrip 0 s d = true
+        /\ exists init l, match s_maps s with c0 :: _ => tempo_script_of live_conf (c_bpms c0) = Some (init, l) | [] => False end
+            /\ Forall2 (chart_cap_denotes init l) (d_charts d) (s_maps s).
+Proof. exact (sm_write_cap_gen live_conf live_conf_ref live_table_ok s). Qed.
+
+(* ... in the form of the runner's oracle (Corr/RunC03.v evaluates exactly this on the implementation's text) *)
+Theorem sm_write_spec (s : smset) : c03_domb s = true ->
+  exists toks, sm_write live_conf current s = Some toks /\
+    forall txt, match_toks 0 toks txt = true -> exists d, sm_denote txt = Some d /\ write_spec 0 true s d = true.
+Proof. exact (sm_write_spec_gen live_conf live_conf_ref live_table_ok s). Qed.
+
+(* the shape of every exact rendering of the written tokens (22 header lines, 9 lines per chart; numerals free) *)
+Theorem sm_write_text_shape (s : smset) : c03_domb s = true ->
+  exists toks, sm_write live_conf current s = Some toks /\ forall txt, match_toks 0 toks txt = true -> text_shape live_conf s txt.
+Proof. exact (sm_write_shape_gen live_conf live_conf_ref live_table_ok s). Qed.
